@@ -107,6 +107,21 @@ def grid(tier):
                     yield {"kind": "system", "spec": spec, "theory": theory, "td": td, "as_ops": False, "secular": False,
                            "resecularize": [], "legacy_false": False, "cutoff_time": None, "coupling_cutoff": cc,
                            "route": "opensystem", "prior_call": None, "reinitialize": False, "other": other, "A": A}
+    # secular variants of every theory that has one, object histories, on one ordinary trimer
+    spec = {"E": [12000, 12180, 12310], "J": [[0, 110, 35], [110, 0, -75], [35, -75, 0]],
+            "d": [[0.0, 0.0, 0.0]] * 3, "T": 200,
+            "bath": [{"ftype": "OverdampedBrownian", "reorg": 35 + 15 * i, "cortime": 45 + 10 * i, "matsubara": 10}
+                     for i in range(3)],
+            "time": [0.0, 100, 2.0]}
+    base = {"kind": "system", "spec": spec, "as_ops": False, "resecularize": [], "legacy_false": False, "cutoff_time": None,
+            "coupling_cutoff": None, "route": "opensystem", "prior_call": None, "reinitialize": False, "other": other, "A": A}
+    for theory, td in (("stR", False), ("stR", True), ("cRF", False), ("cRF", True)):
+        yield dict(base, theory=theory, td=td, secular=True)
+        yield dict(base, theory=theory, td=td, secular=True, prior_call="other-options")
+    yield dict(base, theory="stF", td=False, secular=False, reinitialize=True)
+    yield dict(base, theory="stF", td=False, secular=False, prior_call="other-options")
+    yield dict(base, theory="stR", td=False, secular=False, as_ops=True, resecularize=["eigen", "site", "other"])
+    yield dict(base, theory="stR", td=False, secular=False, resecularize=["other"], legacy_false=True)
 
 
 @st.composite
